@@ -108,7 +108,7 @@ class DLTypeAnnotation(NamedTuple):
             return (None,)
 
         # Ensure the base type is a supported tensor type
-        tensor_type, dltype_hint = args[0], args[1]
+        tensor_type, dltype_hint = _tensor_type_base.expand_type_alias(args[0]), args[1]
         if not any(T in tensor_type.mro() for T in _dtypes.SUPPORTED_TENSOR_TYPES):
             msg = f"Invalid base type=<{tensor_type}> in DLType hint, expected a subtype of {_dtypes.SUPPORTED_TENSOR_TYPES}"
             raise TypeError(msg)
